@@ -332,7 +332,10 @@ fn generate(rng: &mut Rng, index: u64) -> C08Sc {
             for _ in 0..call {
                 sc.wplan.push(WRule::Accept { max: 1_000_000 });
             }
-            sc.wplan.push(WRule::Accept { max: rng.range(1, 9) as usize });
+            // (sometimes not a single byte of the frame is taken before the hold)
+            if rng.chance(2, 3) {
+                sc.wplan.push(WRule::Accept { max: rng.range(1, 9) as usize });
+            }
             let t_ka = refo.view.packets[ki].t_ns;
             match events.iter().find(|(_, t)| *t > t_ka && *t - t_ka < MAX_PAUSE - ms(10)) {
                 Some((name, _)) if rng.chance(3, 4) => sc.wplan.push(WRule::PendEvent { name: name.clone(), ns: *rng.pick(&[0u64, 1_000_000]) }),
